@@ -23,6 +23,8 @@ V = {}
 def add(proto, kind, nm, ns, mode, tier, **kw):
     tag = "".join(f"+{k}" for k, val in sorted(kw.items()) if val is True)
     n = f"{proto}.{kind}({nm}x{ns},{mode}){tag}"
+    if n in V:
+        n += ",w_together" if kw.get("w_late") is False else ",2"
     V[n] = (tier, dict(proto=proto, kind=kind, nm=nm, ns=ns, mode=mode, **kw))
 
 
@@ -45,6 +47,16 @@ for proto in ("lite", "full"):
     add(proto, "crossbar", 2, 2, "mixed", "thorough")
     add(proto, "shared", 3, 2, "read", "thorough")
     add(proto, "crossbar", 2, 3, "read", "thorough")
+# pipelined masters: a new AW/AR may be accepted while (and in the very cycle) earlier responses return; slaves queue 2 requests
+add("lite", "arbiter", 2, 1, "read", "quick", pipelined=True)
+add("lite", "decoder", 1, 2, "write", "quick", pipelined=True, w_late=False)
+add("lite", "shared", 2, 2, "read", "quick", pipelined=True)
+add("lite", "crossbar", 2, 2, "read", "thorough", pipelined=True)
+add("lite", "shared", 2, 2, "write", "thorough", pipelined=True, w_late=False)
+add("full", "shared", 2, 2, "read", "thorough", pipelined=True)
+add("full", "arbiter", 2, 1, "write", "thorough", pipelined=True, w_late=False)
+add("lite", "decoder", 1, 2, "read", "quick", pipelined=True, cross_slave=True)
+add("lite", "decoder", 1, 2, "write", "thorough", pipelined=True, cross_slave=True, w_late=False)
 # capabilities tied to known findings
 add("lite", "decoder", 1, 2, "write", "quick", idle0=True)
 add("lite", "shared", 2, 2, "write", "quick", idle0=True)
